@@ -28,10 +28,11 @@ def parseEv : List String → Option Ev
   | ["tchandirect"] => some .tchanDirect
   | ["tadd", n, k] => n.toNat?.map (fun f => .tadd ⟨f, k == "d"⟩)
   | ["tpop", n, k] => n.toNat?.map (fun f => .tpop ⟨f, k == "d"⟩)
+  | ["sclose", n] => n.toNat?.map .streamClosed
   | _ => none
 
 def showSt (s : St) : String :=
-  s!"lc={s.lc} tq={s.timers.length} rq={s.runq.length} roots={s.roots} susp={s.susp.length} lis={s.lis} pipecalls={s.posted + s.postedNull + s.calls} done={if loopDone s then 1 else 0} nullstuck={s.nullStuck} tleak={s.tchanLeaked}"
+  s!"lc={s.lc} tq={s.timers.length} rq={s.runq.length} roots={s.roots} susp={s.susp.length} lis={s.lis} pipecalls={s.posted + s.postedNull + s.calls} done={if loopDone s then 1 else 0} nullstuck={s.nullStuck} tleak={s.tchanLeaked} orphan={s.orphanLis}"
 
 def stepLine (s : St) (toks : List String) : St × String :=
   match toks with
